@@ -12,6 +12,8 @@ VERIF = os.path.dirname(os.path.dirname(os.path.abspath(__file__)))
 REPO = os.environ.get("VERIF_REPO", "/repo")
 BUILD = os.path.join(VERIF, "build")            # produced by setup_cmd (untracked)
 THEORIES = os.path.join(VERIF, "coq", "theories")
+# runs against another tree than /repo (mutation self-tests, agents' private copies) must not overwrite the evidence of /repo
+OUTDIR = VERIF if os.path.realpath(REPO) == "/repo" else os.environ.get("VERIF_ALT_OUT", os.path.join("/tmp", "verif-alt-out" + os.path.realpath(REPO).replace("/", "_")))
 GUARD = "A2O_SNOOPY_VERIF"
 NCPU = os.cpu_count() or 4
 
@@ -273,15 +275,15 @@ class Run:
         # replay files, one per distinct signature (first occurrence)
         lines = []
         seen = set()
-        os.makedirs(os.path.join(VERIF, "replays"), exist_ok=True)
-        for old in glob.glob(os.path.join(VERIF, "replays", "%s-%s-%d-*.json" % (self.prop, self.tier, self.seed))):
+        os.makedirs(os.path.join(OUTDIR, "replays"), exist_ok=True)
+        for old in glob.glob(os.path.join(OUTDIR, "replays", "%s-%s-%d-*.json" % (self.prop, self.tier, self.seed))):
             os.unlink(old)
         for v in new:
             if v["sig"] in seen:
                 continue
             seen.add(v["sig"])
             name = "%s-%s-%d-%d.json" % (self.prop, self.tier, self.seed, len(seen))
-            path = os.path.join(VERIF, "replays", name)
+            path = os.path.join(OUTDIR, "replays", name)
             rep = dict(v["replay"] or {})
             rep.update({"property": self.prop, "kind": v["kind"], "sig": v["sig"], "detail": v["detail"],
                         "tree_hash": getattr(self, "tree_hash", None),
@@ -306,8 +308,8 @@ class Run:
         ev = {"property_id": self.prop, "tier": self.tier, "seed": self.seed, "level": level, "coverage": cov,
               "assumptions": assumptions or [], "wall_s": round(time.time() - self.t0, 2),
               "violations": len(new), "known_findings": sorted(printed), "notes": self.notes}
-        os.makedirs(os.path.join(VERIF, "evidence"), exist_ok=True)
-        json.dump(ev, open(os.path.join(VERIF, "evidence", self.prop + ".json"), "w"), indent=1)
+        os.makedirs(os.path.join(OUTDIR, "evidence"), exist_ok=True)
+        json.dump(ev, open(os.path.join(OUTDIR, "evidence", self.prop + ".json"), "w"), indent=1)
         for l in lines:
             print(l)
         self.cleanup()
